@@ -102,6 +102,11 @@ CHECKS = {
             "Exhaustive on small integer overlap matrices in both model and implementation; constructed cases cover real/complex unitary bases with permutations, phases and <= 5 % perturbation up to n = 60; the conversion restores orthonormal rows for random masses; generated matdyn files (1-6 q-points, 3-60 modes) are compared number by number.",
             "Trusted: numpy QR/unitary generation and norms in the harness; matdyn line formats as rendered by the harness.",
             "DESIGN.md section 4 C20"),
+    "C18": ("model_checking",
+            "TLC enumerates every run-static invocation class with the columns, row rule and units it must print (spec/StaticCli.tla); the command is run on in-class synthetic inputs and every printed row is compared with the analytic model; VRH/velocity relations of the rows validated by Trace_Averages.tla",
+            "All mode x table x system x cell-mass x ntv classes (24 sampled quick, all 54 thorough): columns and row positions, F = fit at V (input energies in mode none), P = -dF/dV (analytic and finite differences across rows), density, moduli = finite-strain fit of the table, rho v_phi^2 = K_VRH, pressure-mode rows at the requested pressures, system and cell-mass options; row relations (Hill mean, bounds, rho v^2) validated by TLC.",
+            "Trusted: inputs exactly quadratic in Eulerian strain (the second-order fit is exact); tolerances for the command's numerical differentiation/interpolation depend on ntv; pandas prints six digits.",
+            "DESIGN.md section 4 C18"),
 }
 
 NOT_YET = {
